@@ -2120,6 +2120,10 @@ def repeated_statements(k):
     return out
 
 
+# odd inputs in which two properties under one parent carry the same id: a reference cannot tell them apart -- no schedule may be produced
+ODD_MUST_REJECT = {"dup_top_ids", "dup_nested_ids", "dup_resource_ids"}
+
+
 def odd_inputs():
     """C11: small texts that are grammatical (or that the parser accepts) but combine statements in ways no fixture does:
     several allocate lines, scenario-specific duration / length, an undefined macro where a date belongs, flags without the
@@ -2173,6 +2177,8 @@ def odd_inputs():
     out[-1] = ("late_project", out[-1][1].replace("2024-01-01 +2w", "9999-12-01 +2w"))
     add("priority_zero", "", 'task a "A" { effort 1d allocate r priority 0 }\ntask b "B" { effort 1d allocate r priority 1001 }\n')
     add("dup_top_ids", "", 'task a "A" { effort 1d allocate r }\ntask a "A2" { effort 2d allocate r }\ntask b "B" { effort 1d allocate r depends a }\n')
+    add("dup_nested_ids", "", 'task c "C" {\n  task a "A" { effort 1d allocate r }\n  task a "A2" { effort 2d allocate r }\n}\n')
+    add("dup_resource_ids", "", 'resource r "R again" {}\ntask a "A" { effort 1d allocate r }\n')
     add("group_direct_midslot", "", 'resource team "T" { resource m1 "M1" {} resource m2 "M2" {} }\ntask x "X" { effort 90min allocate r }\ntask y "Y" { effort 2h allocate team depends !x }\n')
     add("shift_forward_ref", "", 'resource late "L" { workinghours s1 }\nshift s1 "S1" { workinghours mon - fri 06:00 - 10:00 }\ntask a "A" { effort 8h allocate late }\n')
     add("hours_24", "", 'resource n "N" { workinghours mon - sun 0:00 - 24:00 }\ntask a "A" { effort 100h allocate n }\n')
